@@ -7,20 +7,20 @@ HERE = os.path.dirname(os.path.dirname(os.path.abspath(__file__)))
 
 TEXT = {
     "C01": ("contract on every GEMINI.evaluate call vs naive reference distances (explicit distributions, LP for W1); "
-            "registry monitor on discriminating inputs",
+            "registry monitor on discriminating inputs; differentials: MI == KL one-vs-all on every call, compute_affinity of named kernels / metrics vs scikit-learn, __call__ after an in-place refresh of the same arrays vs a fresh evaluation, float32 copies of the predictions vs the float64 reference",
             "Runtime monitoring: each score returned by the real evaluate() during direct, registry and in-training "
             "calls is compared with an independent reference built from the documented definition. Held on the "
             "executions observed; says nothing about inputs not generated.",
             "Trusts scipy linprog/HiGHS for the transport LP, IEEE doubles, tolerances 1e-9 (1e-7 LP)."),
     "C02": ("contract on every evaluate(return_grad=True): same score, shape, zero gradient on clipped entries, and "
             "Richardson central-difference derivative of the original evaluate through the soft-max parameterisation and "
-            "along simplex tangent directions; kinks detected and skipped",
+            "along simplex tangent directions (row by row on partly clipped inputs); kinks detected and skipped; user epsilon, Fortran-ordered inputs, the same object called again on arrays refreshed in place",
             "Runtime monitoring with a numeric-derivative oracle at every gradient the real code returns during direct "
             "calls and inside real fits. Decides mismatches above ~1e-6 relative at smooth, well-conditioned points.",
             "Finite differences in IEEE doubles; coordinates failing the smoothness / conditioning tests are skipped "
             "(counted in the evidence), so a defect confined to kinks or to gradients below ~1e-7 is invisible."),
     "C13": ("metamorphic monitor on evaluate calls: re-invocation on permuted samples, permuted clusters, appended "
-            "empty cluster; bounds (>=0, <=1, constant rows, MI=log K, finiteness on the closed simplex)",
+            "empty cluster (C / Fortran / strided layouts); bounds (>=0, <=1, constant rows, MI=log K, finiteness on the closed simplex) with per-distance clipping slack; integer / boolean one-hot matrices vs the float matrix",
             "Runtime monitoring: each observed call is re-executed on transformed copies and the relation is asserted; "
             "gradient equivariance is arbitrated by a numeric derivative where decidable.",
             "Tolerances 1e-9 (sqrt-aware for MMD, K*epsilon for clipped one-hot rows); gradient equivariance undecided at kinks."),
@@ -39,13 +39,13 @@ TEXT = {
             "Reference minimiser by bisection (1e-16 bracket); tolerances 1e-12 (group lasso), 1e-10 objective / 1e-8 argmin."),
     "C04": ("post-fit contract through the public API on every fit of generated valid configurations of the 18 "
             "estimators (labels_, predict_proba, predict, score vs reference GEMINI, n_iter_, optimiser_, Adam step counter, "
-            "fit_predict; Kauri labels/tree); any exception is a violation keyed by estimator/exception/frame",
+            "fit_predict; Kauri labels/tree; score after an in-place refresh of the training array; long Douglas trainings with crossing cut points); any exception is a violation keyed by estimator/exception/frame",
             "Runtime monitoring of ~640 (quick) / 12k (thorough) fits drawn from the documented parameter domains, "
             "incl. n_clusters=1, n_clusters=n, batch sizes 1..n+3, list / int / float inputs.",
             "Documented domains are hand-written in gcverif/gen.py; score is compared with the naive reference for n<=14."),
     "C10": ("invariants at hooks: producer side (every batch yielded by _batchify, decoded through unique-id coding) and "
             "consumer side (rows given to _infer and affinity given to GEMINI.evaluate at each optimiser step), step / "
-            "epoch counters, path validation blocks (compute_val_score rebound)",
+            "epoch counters, path validation blocks (compute_val_score rebound); batch size set through set_params after construction / decoration; dynamic paths with a sample-set-dependent kernel (block compared by value)",
             "Runtime monitoring of fits and paths of all batched and nonparametric families, plain and mlcl-decorated.",
             "Rows of generated X are pairwise distinct (ambiguous kernels rows of KernelRIM are skipped and counted)."),
     "C14": ("reference-model monitor (union-find validator) over exhaustive small and random large constraint sets; "
@@ -62,12 +62,12 @@ TEXT = {
             "Cython unavailable: the .pyx cannot be translated, the check builds _utils.cpp and reports INCONCLUSIVE when "
             "the .cpp no longer echoes the .pyx. Admissible families as documented in the code."),
     "C09": ("post-fit contract on every Kauri.fit: limits, partition, thresholds, node counts re-derived from the arrays "
-            "with an independent router and objective; predict on fresh / on-threshold points; score vs reference",
+            "with an independent router and objective; predict on fresh / on-threshold points; score vs a reference computed with the monitor's own kernel, also after set_params(kernel) + refit on the same array and after an in-place change of the array",
             "Runtime monitoring of 1.6k (quick) / 40k (thorough) fits over all combinations of small structural limits; "
             "thorough adds fits on the ASan+UBSan build.",
             "Independent router uses x <= threshold -> left, as the training partition does."),
     "C19": ("stdout of print_kauri_tree parsed by an independent recursive-descent parser into threshold rules, applied "
-            "to training / fresh / on-threshold points and compared with predict; names mapped back; refusals",
+            "to training / fresh / on-threshold points and compared with predict; names mapped back; refusals (unfitted, foreign, model whose only fit was refused)",
             "Runtime monitoring over the C09 fit workload (~2k printed trees per quick run, ~100k points).",
             "Thresholds are printed with a round-tripping repr; generated names contain no ' <= ' / ' > '."),
     "C06": ("invariants at hooks: class-level wrappers on Sparse*Model._update_weights with a snapshot taken inside "
@@ -85,17 +85,17 @@ TEXT = {
             "'Always terminates' is restated as bounded progress (1500 outer steps); budget exhaustion without a stuck "
             "schedule is inconclusive. One open finding (dynamic mode, empty selection) is classified by mechanism."),
     "C15": ("contract on every Douglas._leaf_binning return (probability vectors), post-fit contract (leaf count, masked "
-            "columns perturbed -> bit-identical predictions, low-temperature cell constancy on the fitted object) and "
+            "columns perturbed -> bit-identical predictions, low-temperature cell constancy on the fitted object, one leaf per cell) and "
             "find_active_points vs its definition on generated query sets",
             "Runtime monitoring: 320 fits x 20 active-point queries, ~18k cell comparisons, ~9k binning calls per quick run.",
             "Cell of a sample = number of cut points below its value; points closer than 0.05 to a cut are not used."),
     "C17": ("invariant at the optimiser hook (every parameter finite after every step; first offending step/array "
-            "recorded) + post-call finiteness contract over the property's degenerate families",
+            "recorded) + post-call finiteness contract over the property's degenerate families; every validation score computed inside path(); the 13 objectives on one-hot predictions in four dtypes",
             "Runtime monitoring of 900 (quick) / 18k (thorough) fits and paths across 18 estimators x 12 degenerate families.",
             "One open finding (SGD on the RIM/KernelRIM quadratic penalty beyond its stability limit) classified by a "
             "structural predicate; kernels undefined on the data are not generated."),
     "C18": ("metamorphic monitor on predict / predict_proba: whole array vs subsets, permutations, single and repeated "
-            "rows; training-set probabilities vs the last forward pass of fit captured by an _infer hook",
+            "rows; training-set probabilities vs the last forward pass of fit captured by an _infer hook; large query arrays (2^k-1, 2^k, 2^k+1 rows) row vs row alone; Kauri on features far from the origin",
             "Runtime monitoring: 640 fits x 8 query transformations per quick run over the 15 inductive estimators.",
             "1e-9 absolute on probabilities (BLAS blocking); labels compared where the top-two margin exceeds 1e-9."),
     "C16": ("contract at the call boundary against a hand-written specification table of in-domain / out-of-domain "
@@ -114,12 +114,12 @@ TEXT = {
             "everything else exactly."),
     "C12": ("offline checker over call histories: random sequences of public calls on one estimator (incl. fits and paths "
             "crashed by a fault injected at the optimiser hook) followed by a final fit/path compared bit for bit with a "
-            "fresh object, a refit and a clone; byte checksums of caller arrays and get_params snapshots around every call",
+            "fresh object, a refit and a clone; byte checksums of caller arrays and get_params snapshots around every call (path included); a third of the objects are born under another configuration and reconfigured through set_params; every estimator owns a deep copy of its mutable hyperparameters",
             "Runtime monitoring of 540 (quick) / 9.9k (thorough) histories of length 0..6 over the 18 estimators.",
             "Integer random_state only; histories are random, not exhaustive."),
     "C20": ("statistical monitors on the returned (X, y) of the five generators at n=2e4..2e5 with 6.5-sigma thresholds: "
             "label frequencies, per-label means / covariances, KS distance of whitened Student-t marginals, celeux_two "
-            "regression; determinism for equal seeds; invalid parameter sets must raise",
+            "regression; determinism for equal seeds; invalid parameter sets must raise (incl. random indefinite covariances in d=2..6)",
             "Runtime monitoring: 80 generator calls / ~4k z-tests per quick run (640 calls thorough).",
             "Fixed-seed statistical tests: a deviation below ~6.5 standard errors is invisible at these sample sizes."),
 }
